@@ -87,6 +87,25 @@ FIELD_OF["TAG"] = "tag"
 FIELD_OF["PYTAG"] = "tag"
 
 
+def pattern_parts(pattern):
+    """part names of a pattern (longest match first, so YYYY is not mistaken for YY)"""
+    names = sorted(PART_FIELD, key=len, reverse=True)
+    out = []
+    i = 0
+    while i < len(pattern):
+        for n in names:
+            if pattern.startswith(n, i):
+                out.append(n)
+                i += len(n)
+                break
+        else:
+            i += 1
+    return out
+
+
+MULTI_HAS_TWO_DIGIT_YEAR = {}
+
+
 def pattern_fields(pattern):
     import re
     names = sorted(PART_FIELD, key=len, reverse=True)
@@ -150,7 +169,9 @@ def check_year(case):
                     seen_buckets.add(key)
                     out.more.append((bad[0], {"part": part, "value": mk[1]}, dict(bad[1], date=d.isoformat(), pattern=single_pattern(part))))
         for pat in MULTI:
-            if any(t in pat for t in TWO_DIGIT) and not (two_ok and 2001 <= ref["year_g"] <= 2099):
+            if pat not in MULTI_HAS_TWO_DIGIT_YEAR:
+                MULTI_HAS_TWO_DIGIT_YEAR[pat] = bool(set(pattern_parts(pat)) & TWO_DIGIT)
+            if MULTI_HAS_TWO_DIGIT_YEAR[pat] and not (two_ok and 2001 <= ref["year_g"] <= 2099):
                 continue
             fields = pattern_fields(pat)
             mk = (pat,) + tuple(getattr(vinfo, f) for f in fields)
